@@ -123,20 +123,28 @@ theorem cleanup_reachable : ∃ s, IoHold.run {} IoHold.witness = some s ∧ s.c
 
 /-! ## every operation is served: the stream, its handler requests and its readiness source (`StreamP`) -/
 
-/-- **the readiness source is armed exactly while `source_running`; `dispatch_resume` never meets a source that is not suspended**
-    (F32 as repaired) - for every history of enqueues, handler passes, source events and stops -/
+/-- **the readiness source is armed exactly while `source_running`; no `dispatch_resume` of it - by the handler or by the teardown of
+    the descriptor entry - ever meets a source that is not suspended** (F32, F35 as repaired) - for every history of enqueues,
+    handler passes, source events, stops and the teardown -/
 theorem stream_source_consistent {s : StreamP.St} (h : StreamP.Reachable true s) :
-    s.trapped = false ∧ s.susp = (if s.running then 0 else 1) :=
+    s.trapped = false ∧ (s.disposed = false → s.susp = (if s.running then 0 else 1)) :=
   StreamP.source_consistent h
 
 /-- **no operation is left behind** (F33 as repaired): while operations are on the list, a handler request is queued or the source
     is armed -/
-theorem stream_no_stranded_operation {s : StreamP.St} (h : StreamP.Reachable true s) (ho : s.ops ≠ 0) :
+theorem stream_no_stranded_operation {s : StreamP.St} (h : StreamP.Reachable true s) (hd : s.disposed = false) (ho : s.ops ≠ 0) :
     s.pending ≠ 0 ∨ s.running = true :=
-  StreamP.no_stranded_operation h ho
+  StreamP.no_stranded_operation h hd ho
 
-/-- F32 / F33 as found: histories of the unrepaired steps that trap, and that leave two operations with nothing to serve them -/
+/-- **an idle stream's source is suspended** - what `_dispatch_stream_dispose` relies on when it cancels and resumes it (F35) -/
+theorem stream_idle_source_suspended {s : StreamP.St} (h : StreamP.Reachable true s) (hd : s.disposed = false) (ho : s.ops = 0) :
+    s.running = false ∧ s.susp = 1 :=
+  StreamP.idle_source_suspended h hd ho
+
+/-- F32 / F33 / F35 as found: histories of the unrepaired steps that trap in the handler, leave two operations with nothing to serve
+    them, and trap in the teardown (the last one with the first two repairs in place) -/
 theorem F32_as_found : ∃ s, StreamP.Reachable false s ∧ s.trapped = true := StreamP.F32_as_found
 theorem F33_as_found : ∃ s, StreamP.Reachable false s ∧ s.ops = 2 ∧ s.pending = 0 ∧ s.running = false := StreamP.F33_as_found
+theorem F35_as_found : ∃ s, StreamP.ReachableG StreamP.step35 s ∧ s.trapped = true := StreamP.F35_as_found
 
 end C14
